@@ -259,7 +259,38 @@ def k_pdu_setters(ctx, kind, cfg, p, seed):
         ctx.check("uncorrupted_accepted", ok and u is not None, "valid_packet_refused", f"{kind}/{name}/after_setters", case, error=None if ok else repr(u))
 
 
-KINDS = {"pus": k_pus, "pdu": k_pdu, "trailer_after_setters": k_trailer_after_setters, "pdu_setters": k_pdu_setters}
+def k_pdu_big(ctx, cfg, offset, n, seed):
+    """Large File Data PDU with the CRC flag (sizes around block boundaries): trailer = CRC of everything before, accepted uncorrupted,
+    and a few single-bit flips spread over the PDU are refused."""
+    import random
+    X = C.lib()
+    r = random.Random(seed)
+    p = {"offset": offset, "data": r.randbytes(n).hex(), "seg_meta": None}
+    case = {"k": "pdu_big", "cfg": cfg, "offset": offset, "n": n, "seed": seed}
+    ctx.case(f"pdu_big/large={cfg['large']}", (json.dumps(cfg, sort_keys=True), offset, n, seed), sample=case)
+    ctx.table("big_pdu_total_len_mod_4096", (R.header_len(cfg["idw"], cfg["seqw"]) + (8 if cfg["large"] else 4) + n + 2) % 4096)
+    want = C.ref_octets("file_data", cfg, p)
+    ok, raw = attempt(lambda: bytes(C.build("file_data", cfg, p).pack()))
+    if not ctx.check("trailer_is_crc", ok and raw == want and crc16(raw[:-2]).to_bytes(2, "big") == raw[-2:], "packed_trailer_wrong", "file_data/big", case,
+                     observed=raw[-8:] if ok else repr(raw), expected=want[-8:]):
+        return
+    for name, d in (("class", X.FileDataPdu.unpack), ("factory", X.PduFactory.from_raw)):
+        ok, u = attempt(d, want)
+        ctx.check("uncorrupted_accepted", ok and u is not None, "valid_packet_refused", f"file_data/{name}/big", case, error=None if ok else repr(u))
+    doc = documented_errors()
+    for _ in range(6):
+        pos = r.randrange(32, 8 * len(want))
+        q = bytearray(want)
+        q[pos // 8] ^= 0x80 >> (pos % 8)
+        ok, res = attempt(X.FileDataPdu.unpack, bytes(q))
+        ctx.ev("fault_rejected")
+        if ok:
+            ctx.fail("fault_rejected", "corrupted_packet_accepted", "file_data/class/big", dict(case, bit=pos))
+        elif not isinstance(res, doc):
+            ctx.fail("fault_rejected", "undocumented_error", f"file_data/class/{exc_sig(res)}", dict(case, bit=pos), error=repr(res))
+
+
+KINDS = {"pdu_big": k_pdu_big, "pus": k_pus, "pdu": k_pdu, "trailer_after_setters": k_trailer_after_setters, "pdu_setters": k_pdu_setters}
 
 
 def selftest(ctx):
@@ -321,6 +352,29 @@ def run(ctx):
                 k_pdu(ctx, kind, cfg, p, full=full)
     for s in range(ctx.n(600, 30_000)):
         k_trailer_after_setters(ctx, "tc" if s & 1 else "tm", ctx.seed * 1_000_003 + ctx.shard[0] * 100_003 + s)
+    from spverif.core.util import block_boundary_sizes
+    for large in (0, 1):
+        cfg = C.rand_cfg(r, crc=1, large=large, segctrl=0)
+        ov = R.header_len(cfg["idw"], cfg["seqw"]) + (8 if large else 4)
+        for j, n in enumerate(block_boundary_sizes((ov, ov + 2), 65535 - (8 if large else 4) - 2, ctx.quick)):
+            if ctx.mine(j) and (not ctx.quick or j % 3 == large):
+                k_pdu_big(ctx, cfg, r.getrandbits(32), n, ctx.seed * 1_000_003 + j)
+    # TC / TM whose CRC-covered length sits on a block boundary
+    for j, n in enumerate(block_boundary_sizes((11, 13), 65529, ctx.quick)):
+        if ctx.mine(j) and (not ctx.quick or j % 4 == 0):
+            raw = P.tc(r.getrandbits(11), r.getrandbits(14), 3, 4, 5, 6, r.randbytes(n))
+            from spacepackets.ecss.tc import PusTc
+            from spacepackets.ecss import check_pus_crc
+            ok, u = attempt(PusTc.unpack, raw)
+            ctx.check("uncorrupted_accepted", ok and check_pus_crc(raw) is True, "valid_packet_refused", "tc/big", {"k": "note", "n": n}, error=None if ok else repr(u))
+            if ok:
+                ok2, rp = attempt(lambda: bytes(u.pack()))
+                ctx.check("trailer_is_crc", ok2 and rp == raw, "packed_trailer_wrong", "tc/big", {"k": "note", "n": n})
+            q = bytearray(raw)
+            q[r.randrange(6, len(raw))] ^= 1 << r.randrange(8)
+            ok, res = attempt(PusTc.unpack, bytes(q))
+            ctx.check("fault_rejected", (not ok) and isinstance(res, documented_errors()) and check_pus_crc(bytes(q)) is False, "corrupted_packet_accepted", "tc/big",
+                      {"k": "note", "n": n})
     for s in range(ctx.n(360, 18_000)):
         kind = ("eof", "finished", "metadata", "nak", "keep_alive", "file_data")[s % 6]
         cfg = C.rand_cfg(r, segctrl=(kind == "file_data"), crc=1)
